@@ -236,10 +236,26 @@ func NewSandbox(parent string, toks *Tokens, nm *NameMap) (*Sandbox, error) {
 }
 
 // RootSpelling returns the served directory as an operator might configure it: 0 clean, 1 trailing slash, 2 "/." suffix,
-// 3 doubled separator, 4 dot-dot detour, 5 "./" inside. All name the same directory.
+// 3 doubled separator, 4 dot-dot detour, 5 "./" inside, 6 relative to the working directory, 7 the same with "./".
+// All name the same directory (6 and 7 fall back to the clean form if the working directory is not an ancestor).
+const RootSpellings = 8
+
 func (sb *Sandbox) RootSpelling(style int) string {
 	dir, base := filepath.Dir(sb.Root), filepath.Base(sb.Root)
-	switch style % 6 {
+	switch style % RootSpellings {
+	case 6, 7:
+		wd, err := os.Getwd()
+		if err != nil {
+			return sb.Root
+		}
+		rel, err := filepath.Rel(wd, sb.Root)
+		if err != nil || strings.HasPrefix(rel, "..") {
+			return sb.Root
+		}
+		if style%RootSpellings == 7 {
+			return "./" + rel
+		}
+		return rel
 	case 1:
 		return sb.Root + "/"
 	case 2:
@@ -545,6 +561,11 @@ func (sb *Sandbox) Build(r *Req, variant int, tags func(class string) string) (*
 			body = fr
 		} else {
 			body = bytes.NewReader(data)
+			if r.Fmode == "precancel" {
+				// the request's context is already cancelled when the handler starts; the body itself is intact
+				ctx, cancel = context.WithCancel(ctx)
+				cancel()
+			}
 		}
 	case "MKCOL":
 		if r.Ctype != "none" {
